@@ -8,6 +8,7 @@ const bool ordered = false;
 const char *stdout_marker = nullptr;
 const char *stdout_branch_marker = nullptr;
 const double numeric_rel_tol = 1e-9;
+const bool exact_lattice_plans = false;
 const double conditioning_gate = 1e-2;
 
 enum { V_SIMPLE = 1, V_FINE = 2 };
